@@ -977,6 +977,147 @@ theorem interval_values_whole_seconds (s : String) (v : Int) (h : intervalValueO
             exact this suffixUnits (by decide) hunit
           exact Int.dvd_trans hu (Int.dvd_mul_left n unit)
 
+
+/-! ## One named theorem per struct field / node type of sql/stmt
+
+`Generated.C17.fieldObligations` is regenerated from the source: every field of every type of
+sql/stmt with an `UnmarshalJSON` method (the statement kinds sent between nodes) and every type
+with a `Rewrite()` method (the expression node kinds). `Props/C17Fields.lean` fails with
+"<Type>.<Field> has no round-trip theorem" unless a theorem of the expected name exists below;
+`tie_exprNodeFields` pins the fields of the node types to the constructors of the model. -/
+
+theorem tie_wireStatements : Generated.C17.wireStatements = ["MetricMetadata", "Query"] := by decide
+theorem tie_exprNodeFields : Generated.C17.exprNodeFields = exprNodeFieldTable := by decide
+
+/-- what the leaf holds is the wire image of what the root sent -/
+theorem leaf_ok_image (q q' : Query) (h : leafStatement (payloadOf q) = .ok q') : q' = q.wireImage := by
+  rw [leaf_executes_planned_exact] at h
+  by_cases hf : q.wellFormed = true
+  · simp only [hf, if_true] at h; injection h with h; exact h.symm
+  · simp [hf] at h
+
+theorem meta_ok_image (m m' : Metadata) (hk : m.kind < 256) (h : leafMetadata (metaPayloadOf m) = .ok m') :
+    m' = m := by
+  have := metadata_roundtrip_exact m hk
+  unfold leafMetadata metaPayloadOf at h
+  rw [this] at h
+  by_cases hf : optWellFormed m.condition = true
+  · simp only [hf, if_true] at h; injection h with h; exact h.symm
+  · simp [hf] at h
+
+
+theorem field_Query_Explain_roundtrip (q q' : Query) (h : leafStatement (payloadOf q) = .ok q') :
+    q'.explain = q.explain := by rw [leaf_ok_image q q' h]; rfl
+
+theorem field_Query_Namespace_roundtrip (q q' : Query) (h : leafStatement (payloadOf q) = .ok q') :
+    q'.ns = q.ns := by rw [leaf_ok_image q q' h]; rfl
+
+theorem field_Query_MetricName_roundtrip (q q' : Query) (h : leafStatement (payloadOf q) = .ok q') :
+    q'.metricName = q.metricName := by rw [leaf_ok_image q q' h]; rfl
+
+theorem field_Query_SelectItems_roundtrip (q q' : Query) (h : leafStatement (payloadOf q) = .ok q') :
+    q'.selectItems = q.selectItems := by rw [leaf_ok_image q q' h]; rfl
+
+theorem field_Query_AllFields_roundtrip (q q' : Query) (h : leafStatement (payloadOf q) = .ok q') :
+    q'.allFields = q.allFields := by rw [leaf_ok_image q q' h]; rfl
+
+theorem field_Query_Condition_roundtrip (q q' : Query) (h : leafStatement (payloadOf q) = .ok q') :
+    q'.condition = q.condition := by rw [leaf_ok_image q q' h]; rfl
+
+theorem field_Query_TimeRange_roundtrip (q q' : Query) (h : leafStatement (payloadOf q) = .ok q') :
+    q'.timeRange = q.timeRange := by rw [leaf_ok_image q q' h]; rfl
+
+theorem field_Query_IntervalRatio_roundtrip (q q' : Query) (h : leafStatement (payloadOf q) = .ok q') :
+    q'.intervalRatio = q.intervalRatio := by rw [leaf_ok_image q q' h]; rfl
+
+theorem field_Query_AutoGroupByTime_roundtrip (q q' : Query) (h : leafStatement (payloadOf q) = .ok q') :
+    q'.autoGroupByTime = q.autoGroupByTime := by rw [leaf_ok_image q q' h]; rfl
+
+theorem field_Query_GroupBy_roundtrip (q q' : Query) (h : leafStatement (payloadOf q) = .ok q') :
+    q'.groupBy = q.groupBy := by rw [leaf_ok_image q q' h]; rfl
+
+theorem field_Query_Having_roundtrip (q q' : Query) (h : leafStatement (payloadOf q) = .ok q') :
+    q'.having = q.having := by rw [leaf_ok_image q q' h]; rfl
+
+theorem field_Query_OrderByItems_roundtrip (q q' : Query) (h : leafStatement (payloadOf q) = .ok q') :
+    q'.orderByItems = q.orderByItems := by rw [leaf_ok_image q q' h]; rfl
+
+theorem field_Query_Limit_roundtrip (q q' : Query) (h : leafStatement (payloadOf q) = .ok q') :
+    q'.limit = q.limit := by rw [leaf_ok_image q q' h]; rfl
+
+/-- cut to whole seconds by `Interval.String`; unchanged exactly for whole seconds -/
+theorem field_Query_Interval_roundtrip (q q' : Query) (h : leafStatement (payloadOf q) = .ok q') :
+    q'.interval = q.interval - q.interval.tmod 1000 ∧ ((1000 : Int) ∣ q.interval → q'.interval = q.interval) := by
+  rw [leaf_ok_image q q' h]
+  refine ⟨rfl, fun hd => ?_⟩
+  show q.interval - q.interval.tmod 1000 = q.interval
+  rw [Int.tmod_eq_zero_of_dvd hd]; simp
+
+/-- cut to whole seconds by `Interval.String`; unchanged exactly for whole seconds -/
+theorem field_Query_StorageInterval_roundtrip (q q' : Query) (h : leafStatement (payloadOf q) = .ok q') :
+    q'.storageInterval = q.storageInterval - q.storageInterval.tmod 1000 ∧ ((1000 : Int) ∣ q.storageInterval → q'.storageInterval = q.storageInterval) := by
+  rw [leaf_ok_image q q' h]
+  refine ⟨rfl, fun hd => ?_⟩
+  show q.storageInterval - q.storageInterval.tmod 1000 = q.storageInterval
+  rw [Int.tmod_eq_zero_of_dvd hd]; simp
+
+theorem field_MetricMetadata_Namespace_roundtrip (m m' : Metadata) (hk : m.kind < 256)
+    (h : leafMetadata (metaPayloadOf m) = .ok m') : m'.ns = m.ns := by rw [meta_ok_image m m' hk h]
+
+theorem field_MetricMetadata_MetricName_roundtrip (m m' : Metadata) (hk : m.kind < 256)
+    (h : leafMetadata (metaPayloadOf m) = .ok m') : m'.metricName = m.metricName := by rw [meta_ok_image m m' hk h]
+
+theorem field_MetricMetadata_Type_roundtrip (m m' : Metadata) (hk : m.kind < 256)
+    (h : leafMetadata (metaPayloadOf m) = .ok m') : m'.kind = m.kind := by rw [meta_ok_image m m' hk h]
+
+theorem field_MetricMetadata_TagKey_roundtrip (m m' : Metadata) (hk : m.kind < 256)
+    (h : leafMetadata (metaPayloadOf m) = .ok m') : m'.tagKey = m.tagKey := by rw [meta_ok_image m m' hk h]
+
+theorem field_MetricMetadata_Prefix_roundtrip (m m' : Metadata) (hk : m.kind < 256)
+    (h : leafMetadata (metaPayloadOf m) = .ok m') : m'.prefix_ = m.prefix_ := by rw [meta_ok_image m m' hk h]
+
+theorem field_MetricMetadata_Condition_roundtrip (m m' : Metadata) (hk : m.kind < 256)
+    (h : leafMetadata (metaPayloadOf m) = .ok m') : m'.condition = m.condition := by rw [meta_ok_image m m' hk h]
+
+theorem field_MetricMetadata_Limit_roundtrip (m m' : Metadata) (hk : m.kind < 256)
+    (h : leafMetadata (metaPayloadOf m) = .ok m') : m'.limit = m.limit := by rw [meta_ok_image m m' hk h]
+
+theorem kind_BinaryExpr_roundtrip (l r : Expr) (op : Int) (h : (Expr.binary l r op).wellFormed = true) :
+    unmarshal (marshalRaw (.binary l r op)) = .ok (.binary l r op) := expr_roundtrip_partial _ h
+
+theorem kind_CallExpr_roundtrip (ft : Int) (ps : List Expr) (h : (Expr.call ft ps).wellFormed = true) :
+    unmarshal (marshalRaw (.call ft ps)) = .ok (.call ft ps) := expr_roundtrip_partial _ h
+
+theorem kind_EqualsExpr_roundtrip (k v : String) :
+    unmarshal (marshalRaw (.equals k v)) = .ok (.equals k v) := expr_roundtrip_partial _ rfl
+
+theorem kind_FieldExpr_roundtrip (n : String) :
+    unmarshal (marshalRaw (.field n)) = .ok (.field n) := expr_roundtrip_partial _ rfl
+
+theorem kind_InExpr_roundtrip (k : String) (vs : List String) :
+    unmarshal (marshalRaw (.inE k vs)) = .ok (.inE k vs) := expr_roundtrip_partial _ rfl
+
+theorem kind_LikeExpr_roundtrip (k v : String) :
+    unmarshal (marshalRaw (.like k v)) = .ok (.like k v) := expr_roundtrip_partial _ rfl
+
+theorem kind_NotExpr_roundtrip (e : Expr) (h : (Expr.not e).wellFormed = true) :
+    unmarshal (marshalRaw (.not e)) = .ok (.not e) := expr_roundtrip_partial _ h
+
+theorem kind_NumberLiteral_roundtrip (f : F64) (h : (Expr.number f).wellFormed = true) :
+    unmarshal (marshalRaw (.number f)) = .ok (.number f) := expr_roundtrip_partial _ h
+
+theorem kind_OrderByExpr_roundtrip (e : Expr) (d : Bool) (h : (Expr.orderBy e d).wellFormed = true) :
+    unmarshal (marshalRaw (.orderBy e d)) = .ok (.orderBy e d) := expr_roundtrip_partial _ h
+
+theorem kind_ParenExpr_roundtrip (e : Expr) (h : (Expr.paren e).wellFormed = true) :
+    unmarshal (marshalRaw (.paren e)) = .ok (.paren e) := expr_roundtrip_partial _ h
+
+theorem kind_RegexExpr_roundtrip (k r : String) :
+    unmarshal (marshalRaw (.regex k r)) = .ok (.regex k r) := expr_roundtrip_partial _ rfl
+
+theorem kind_SelectItem_roundtrip (e : Expr) (a : String) (h : (Expr.selectItem e a).wellFormed = true) :
+    unmarshal (marshalRaw (.selectItem e a)) = .ok (.selectItem e a) := expr_roundtrip_partial _ h
+
 /-! ## Non-vacuity -/
 
 example : fullQuery.wellFormed = true ∧ (1000 : Int) ∣ fullQuery.interval ∧
